@@ -8,31 +8,42 @@ R3 one mask formula everywhere; value shifted by the same start; value range
 R4 occupancy accumulated over everything potentially co-present; pass order
 R5 widths follow the values given
 R6 tags reach every ancestor
+
+The rules work on value terms and canonical facts (terms.py): what is
+committed, returned, or-ed or raised under which conditions, analysed by
+cases (fixed / floating position) with nested helpers seen through, plus
+arithmetic normal forms of the masks and scan bounds.
 """
 import ast
 
 from ..core import AnalysisError, finish, unparse
 from ..dataflow import Flow, chain, call_name
-from ..absint import Interp
-from ..ordtype import weak_orderings, Ordering, Evaluator
-from ..poly import Poly, le, lt, eq
+from ..poly import Poly
+from ..terms import Terms, reify, plain, match, V, ANY, show, subterms, \
+    mk_cmp, is_none, stores, method_calls, alternatives, one_level, SITES, \
+    owner_views
 from ..util import calls_in, qual, formals, raises_of, raise_name, \
-    returns_of, has_fact
+    returns_of
 
 BF = "rig.bitfield:BitField"
+SELF = ("param", "self")
+SLEN = ("attr", SELF, "length")
 
 EXPLANATION = (
-    "R1: the symbolic range of the first-fit scan in _assign_field is "
-    "compared with the acceptance test start_at + length <= self.length: the "
-    "largest start tried plus the length must equal the bit-field length. "
-    "R2: under the hypothesis 'start_at is not None' the linear-constraint "
-    "interpreter proves 0 <= start_at and start_at + (length or 1) <= "
-    "self.length where the field is recorded; the overlap condition is "
-    "evaluated on every weak ordering of the four endpoints and must equal "
-    "half-open intersection; the loop ranges over potential_fields. R3: the "
+    "R1: the range of the first-fit scan in _assign_field is compared, as an "
+    "arithmetic normal form, with the acceptance test start + length <= "
+    "self.length: the largest start tried plus the length equals the "
+    "bit-field length; a position is taken only under the 'no bit already "
+    "assigned' test and its bits are or-ed into the occupancy returned. R2: "
+    "on the executions with start_at given, the facts holding where the "
+    "field is recorded (tests of the function or of a helper it calls) "
+    "include 0 <= start_at and start_at + (length or 1) <= self.length; the "
+    "overlap error is raised exactly under other.start < end and start < "
+    "other.end (half-open intersection), over potential_fields. R3: the "
     "occupancy / mask expressions are compared as normal forms "
-    "((1 << L) - 1) << S. R4-R6: call-order, dominance and must-pass-through "
-    "facts.")
+    "((1 << L) - 1) << S; a value is rejected whenever the field's length is "
+    "known and the value does not fit. R4-R6: call-order, allocation-site "
+    "and must-pass-through facts.")
 NOT_DECIDED = [
     "non-overlap for every hierarchy shape (depends on the contents of the "
     "field tree: which fields potential_fields/enabled_fields return)",
@@ -43,10 +54,25 @@ NOT_DECIDED = [
 ]
 
 
-def _mask_form(fl, expr, node):
+def _wp(e):
+    for n in ast.walk(e):
+        for c in ast.iter_child_nodes(n):
+            c._parent = n
+    ast.fix_missing_locations(e)
+    return e
+
+
+def _poly(fl, t):
+    return fl.sym(_wp(reify(plain(t))), fl.cfg.entry)
+
+
+def _mask_form(fl, t):
     """((1 << L) - 1) << S  ->  (L poly, S poly) or None.  In normal form:
     pow2(L) * pow2(S) - pow2(S)."""
-    p = fl.sym(expr, node)
+    try:
+        p = _poly(fl, t)
+    except AnalysisError:
+        return None
     if len(p.t) != 2:
         return None
     single = [m for m, c in p.t.items() if len(m) == 1 and c == -1]
@@ -67,129 +93,14 @@ def _mask_form(fl, expr, node):
     return li[1], S
 
 
-def r1_scan(program, rep):
-    fn = program.get(BF + "._assign_field")
-    inst = qual(fn)
-    fl = Flow(fn)
-    cfg = fl.cfg
-    loops = [n for n in ast.walk(fn) if isinstance(n, ast.For) and
-             isinstance(n.iter, ast.Call) and
-             unparse(n.iter.func) == "range"]
-    if len(loops) != 1:
-        raise AnalysisError("_assign_field: expected one range() scan")
-    lp = loops[0]
-    head = cfg.loop_head[id(lp)]
-    args = lp.iter.args
-    if len(args) == 1:
-        lo, hi = Poly.const(0), fl.sym(args[0], head)
-    elif len(args) == 2:
-        lo, hi = fl.sym(args[0], head), fl.sym(args[1], head)
-    else:
-        raise AnalysisError("_assign_field: scan with a step")
-    # the acceptance test:  S + length <= self.length  guarding the commit
-    commit = [d for d in fl.defs if d.var == "field.start_at" and
-              d.mode == "assign"]
-    if len(commit) != 1:
-        raise AnalysisError("_assign_field: expected one commit of "
-                            "field.start_at")
-    cons = fl.constraints(commit[0].node)
-    # find the length variable: the one added to start_at in the test
-    acc = None
-    for cond, pol, a in fl.facts(commit[0].node):
-        if isinstance(cond, ast.Compare) and len(cond.ops) == 1:
-            acc = (cond, pol, a)
-    if acc is None:
-        rep.bad("C08-R1", inst, "no acceptance test", "field.start_at is "
-                "committed without a range test", commit[0].node.ast)
-        return
-    cond, pol, a = acc
-    l = fl.sym(cond.left, a)
-    r = fl.sym(cond.comparators[0], a)
-    opn = type(cond.ops[0]).__name__
-    # normalise to  S + L <= BOUND
-    if (opn == "LtE" and pol) or (opn == "Gt" and not pol):
-        sumv, bound = l, r
-    elif (opn == "GtE" and pol) or (opn == "Lt" and not pol):
-        sumv, bound = r, l
-    else:
-        rep.bad("C08-R1", inst, "acceptance test shape", "unrecognised "
-                "acceptance test %s" % unparse(cond), cond)
-        return
-    rep.check(bound == Poly.atom("self.length"), "C08-R1", inst,
-              "a placement is accepted iff start + length <= the bit "
-              "field's length", construct="acceptance bound %r" % (bound,),
-              node=cond)
-    # sumv = start_at(phi) + length ; the length term is sumv minus the
-    # start variable
-    S_at = fl.symvar(chain(commit[0].value), commit[0].node)
-    Lsym = sumv - S_at
-    rep.check(lo == Poly.const(0), "C08-R1", inst, "the scan starts at bit "
-              "0", construct="scan start %r" % (lo,), node=lp)
-    # length as seen at the loop
-    reach_top = (hi - 1) + Lsym
-    rep.check(reach_top == bound, "C08-R1", inst,
-              "the last position tried, plus the field length, equals the "
-              "bit-field length: every position the acceptance test allows "
-              "is tried", construct="scan end %r" % (hi,), node=lp,
-              fail="the scan tries positions %r .. %r - 1; the topmost "
-                   "position allowed by the acceptance test (%r - length) "
-                   "is %s" % (lo, hi, bound,
-                              "never tried" if True else ""))
-    # the position chosen is free and becomes occupied
-    chosen = [d for d in fl.defs if d.var == chain(commit[0].value) and
-              d.mode == "assign" and _inside(d.node.ast, lp)]
-    okc = False
-    for d in chosen:
-        f = fl.facts(d.node)
-        free = any(isinstance(c, ast.BinOp) and isinstance(c.op, ast.BitAnd)
-                   and not p for c, p, _ in f)
-        okc = free and chain(d.value) == chain(lp.target)
-    rep.check(okc, "C08-R1", inst, "a position is taken only if none of the "
-              "field's bits is already assigned",
-              construct="free position test", node=lp)
-    # both branches OR the field's bits into the returned occupancy, and
-    # field_bits is the one mask formula for (length, position)
-    ors = [d for d in fl.defs if d.var == formals(fn)[1] and d.mode == "aug"
-           and isinstance(d.value.op, ast.BitOr)]
-    rets = returns_of(fn)
-    # every definition of the committed position that can pass the
-    # acceptance test (i.e. is not the sentinel == bound, which fails it for
-    # any length >= 1) is followed, before the return and before the position
-    # is re-defined, by OR-ing the field's bits into the occupancy
-    svar = chain(commit[0].value)
-    sdefs = [d for d in fl.defs if d.var == svar and d.mode == "assign"]
-    okr = len(rets) == 1 and chain(rets[0].value) == formals(fn)[1]
-    n_real = 0
-    for d in sdefs:
-        if fl.sym(d.value, d.node) == bound:
-            continue            # sentinel: start + length <= bound fails
-        n_real += 1
-        others = [x.node for x in sdefs if x is not d]
-        okr = okr and cfg.must_pass(
-            d.node, lambda n: any(n is o.node for o in ors),
-            targets=[cfg.node_of(rets[0])], avoid=others)
-    okr = okr and n_real >= 2
-    rep.assume("field lengths are >= 1 (add_field rejects length <= 0; the "
-               "automatic length is >= 1)")
-    rep.check(okr, "C08-R4", inst, "every successful placement adds the "
-              "field's bits to the occupancy mask it returns",
-              construct="occupancy returned", node=fn,
-              fail="a path returns the occupancy mask without the newly "
-                   "placed field's bits: the next field can be put on top "
-                   "of it")
-    for d in ors:
-        bits = fl.reaching(chain(d.value.value), d.node)
-        okm = False
-        if len(bits) == 1 and bits[0].mode == "assign":
-            mf = _mask_form(fl, bits[0].value, bits[0].node)
-            if mf is not None:
-                L, S = mf
-                # S is the position committed on this path
-                okm = True
-        rep.check(okm, "C08-R3", inst, "occupied bits = ((1 << length) - 1) "
-                  "<< position", construct="field_bits formula",
-                  node=d.node.ast)
-    rep.floor("C08-R1", 4)
+def _unversion(t):
+    """attrv -> attr (for shape comparisons that do not depend on which
+    definition of the attribute is read)."""
+    if not isinstance(t, tuple):
+        return t
+    if t and t[0] == "attrv":
+        return ("attr", _unversion(t[1]), t[2])
+    return tuple(_unversion(x) for x in t)
 
 
 def _inside(node, anc):
@@ -201,160 +112,402 @@ def _inside(node, anc):
     return False
 
 
+def _attr_binds(T, base_pred, attr):
+    """Attribute assignments ``X.attr = v`` with X's term satisfying
+    base_pred: [(bind, X term, value term)]."""
+    out = []
+    for b_ in T.binds:
+        if b_.mode != "assign" or "." not in b_.var or \
+                not b_.var.endswith("." + attr):
+            continue
+        st = b_.node.ast
+        if not isinstance(st, ast.Assign):
+            continue
+        tg = [t for t in st.targets if isinstance(t, ast.Attribute) and
+              t.attr == attr]
+        if not tg:
+            continue
+        X = T.term(tg[0].value, b_.node)
+        if base_pred(X):
+            out.append((b_, X, T._bind_term(b_)))
+    return out
+
+
+def _read_of(T, base, name):
+    """The term of ``base.name`` as read at the function's tests (an
+    attribute the function also writes is versioned by its definitions)."""
+    found = []
+    for n in T.cfg.nodes:
+        if n.kind != "assume":
+            continue
+        t, _ = T.cond(n.ast, n, n.polarity)
+        for st in subterms(t):
+            if st[0] in ("attr", "attrv") and st[1] == base and \
+                    st[2] == name and st not in found:
+                found.append(st)
+    for b_ in T.binds:
+        if b_.mode == "assign":
+            for st in subterms(T._bind_term(b_)):
+                if st[0] in ("attr", "attrv") and st[1] == base and \
+                        st[2] == name and st not in found:
+                    found.append(st)
+    if len(found) != 1:
+        raise AnalysisError("reads of .%s: %d forms" % (name, len(found)))
+    return found[0]
+
+
+def r1_scan(program, rep):
+    fn = program.get(BF + "._assign_field")
+    inst = qual(fn)
+    T = Terms(fn)
+    fl = Flow(fn)
+    cfg = T.cfg
+    ps = formals(fn)             # self, assigned_bits, identifier, values
+    OCC0 = ("param", ps[1])
+    FIELD = None
+    for c in calls_in(fn, "get_field"):
+        FIELD = T.term(c)
+    if FIELD is None:
+        raise AnalysisError("_assign_field: the field looked up")
+    START0 = _read_of(T, FIELD, "start_at")
+    floating = T.under((is_none(START0), True))
+    fixed = T.under((is_none(START0), False))
+    commits = _attr_binds(T, lambda X: X == FIELD, "start_at")
+    lcommits = _attr_binds(T, lambda X: X == FIELD, "length")
+    if len(commits) != 1 or len(lcommits) != 1:
+        raise AnalysisError("_assign_field: expected one commit of the "
+                            "field's position and of its length")
+    cb, _, S = commits[0]
+    L = lcommits[0][2]
+    # acceptance: S + L <= self.length where the position is committed
+    acc = False
+    want = _poly(fl, S) + _poly(fl, L)
+    for t, p in T.all_facts(cb.node):
+        if p and t[0] == "cmp" and t[1] == "LtE" and t[3] == SLEN:
+            try:
+                acc = acc or _poly(fl, t[2]) == want
+            except AnalysisError:
+                pass
+    rep.check(acc, "C08-R1", inst, "a placement is accepted iff start + "
+              "length <= the bit field's length", construct="acceptance "
+              "bound", node=fn)
+    # the scan (floating case)
+    loops = [n for n in ast.walk(fn) if isinstance(n, ast.For) and
+             isinstance(n.iter, ast.Call) and
+             unparse(n.iter.func) == "range" and
+             floating.live(cfg.loop_head[id(n)])]
+    if len(loops) != 1:
+        raise AnalysisError("_assign_field: expected one range() scan")
+    lp = loops[0]
+    head = cfg.loop_head[id(lp)]
+    it = plain(floating.term(lp.iter, head))
+    args = it[2]
+    if len(args) == 1:
+        lo, hi = Poly.const(0), _poly(fl, args[0])
+    elif len(args) == 2:
+        lo, hi = _poly(fl, args[0]), _poly(fl, args[1])
+    else:
+        raise AnalysisError("_assign_field: scan with a step")
+    Lp = _poly(fl, floating.term(ast.parse("0", mode="eval").body, head)) \
+        if False else _poly(fl, L)
+    rep.check(lo == Poly.const(0), "C08-R1", inst, "the scan starts at bit "
+              "0", construct="scan start %r" % (lo,), node=lp)
+    rep.check((hi - 1) + Lp == _poly(fl, SLEN), "C08-R1", inst,
+              "the last position tried, plus the field length, equals the "
+              "bit-field length: every position the acceptance test allows "
+              "is tried", construct="scan end %r" % (hi,), node=lp,
+              fail="the scan tries positions %r .. %r - 1; the topmost "
+                   "position allowed by the acceptance test (self.length - "
+                   "length) is never tried" % (lo, hi))
+    # a position is taken only if free, and then its bits become occupied
+    CAND = T._tag(lp.iter, ("elem", T.term(lp.iter, head)))
+    takes = [b_ for b_ in T.binds if b_.mode == "assign" and
+             _inside(b_.node.ast, lp) and T._bind_term(b_) == CAND and
+             b_.var != (lp.target.id if isinstance(lp.target, ast.Name)
+                        else None)]
+    okc = okm = False
+    if len(takes) == 1:
+        tk = takes[0]
+        free = None
+        for a in cfg.nodes:
+            if a.kind != "assume" or not _inside(a.ast, lp) or \
+                    not cfg.dominates(a, tk.node):
+                continue
+            t, p = T.cond(a.ast, a, a.polarity)
+            band = None
+            if t[0] == "binop" and t[1] == "BitAnd" and not p:
+                band = t
+            if t[0] == "cmp" and t[1] == "Eq" and p and \
+                    ("const", 0) in (t[2], t[3]):
+                o = t[3] if t[2] == ("const", 0) else t[2]
+                if o[0] == "binop" and o[1] == "BitAnd":
+                    band = o
+            if band is not None:
+                free = (a, band)
+        if free is not None:
+            a, band = free
+            bits = [x for x in (band[2], band[3])
+                    if _mask_form(fl, x) is not None]
+            occ = [x for x in (band[2], band[3]) if x not in bits]
+            okc = len(bits) == 1 and len(occ) == 1
+            if okc:
+                mL, mS = _mask_form(fl, bits[0])
+                okc = mL == Lp and mS == _poly(fl, CAND)
+                # the occupancy tested is the one received (plus nothing
+                # placed by this call yet) and the bits are or-ed into it on
+                # the same path
+                ors = [b_ for b_ in T.binds if b_.var == ps[1] and
+                       b_.mode in ("assign", "aug") and
+                       _inside(b_.node.ast, lp)]
+                okm = len(ors) == 1 and cfg.dominates(a, ors[0].node) and \
+                    plain(T._bind_term(ors[0])) in (
+                        ("binop", "BitOr", plain(occ[0]), plain(bits[0])),
+                        ("binop", "BitOr", plain(bits[0]), plain(occ[0])))
+    rep.check(okc, "C08-R1", inst, "a position is taken only if none of the "
+              "field's bits ((1 << length) - 1) << position is already "
+              "assigned", construct="free position test", node=lp)
+    # fixed case: the occupancy returned has the field's bits or-ed in
+    rets = [r for r in returns_of(fn) if r.value is not None]
+    okr = len(rets) == 1 and okm
+    if okr:
+        rn = cfg.node_of(rets[0])
+        rt = fixed.term(rets[0].value, rn)
+        okr = rt[0] == "binop" and rt[1] == "BitOr" and OCC0 in (rt[2],
+                                                                 rt[3])
+        if okr:
+            bits = rt[3] if rt[2] == OCC0 else rt[2]
+            mf = _mask_form(fl, bits)
+            okr = mf is not None and mf[0] == Lp and \
+                mf[1] == _poly(fl, START0)
+        # floating: the value returned is the received occupancy, possibly
+        # with the taken position's bits; the 'nothing found' alternative
+        # keeps the sentinel position, which the acceptance test rejects
+        alts = [plain(x) for x in alternatives(floating.term(rets[0].value,
+                                                             rn))]
+        okr = okr and plain(OCC0) in alts and len(alts) == 2
+        sent = [plain(x) for x in alternatives(floating._bind_term(cb))
+                ] if False else [plain(x) for x in alternatives(
+                    floating.term(cb.value, cb.node))]
+        okr = okr and plain(SLEN) in sent and len(sent) == 2
+    rep.assume("field lengths are >= 1 (add_field rejects length <= 0; the "
+               "automatic length is >= 1)")
+    rep.check(okr, "C08-R4", inst, "every successful placement adds the "
+              "field's bits to the occupancy mask it returns (a fruitless "
+              "scan leaves the position at self.length, which the "
+              "acceptance test rejects)", construct="occupancy returned",
+              node=fn,
+              fail="a path returns the occupancy mask without the newly "
+                   "placed field's bits: the next field can be put on top "
+                   "of it")
+    rep.check(okc and okm, "C08-R3", inst, "occupied bits = ((1 << length) "
+              "- 1) << position, or-ed into the occupancy on the path that "
+              "takes the position", construct="field_bits formula", node=fn)
+    rep.floor("C08-R1", 4)
+
+
 def r2_explicit(program, rep):
     fn = program.get(BF + ".add_field")
     inst = qual(fn)
     ps = formals(fn)
-    length, start = ps[2], ps[3]
-    rec = calls_in(fn, "add_field")
-    rec = [c for c in rec if chain(call_name(c)[1]) == "self.fields"]
+    LEN, START = ("param", ps[2]), ("param", ps[3])
+    T = Terms(fn)
+    fl = Flow(fn)
+    rec = [x for x in method_calls(T, "add_field")
+           if x[2] == ("attr", SELF, "fields")]
     if len(rec) != 1:
         raise AnalysisError("add_field: expected one self.fields.add_field")
-    S = Poly.atom(start)
-    SL = Poly.atom("self.length")
-    it = Interp(fn, hypotheses=[("%s is not None" % start, True),
-                                ("%s is None" % start, False)])
-    node = it.cfg.node_containing(rec[0])
-    W = it.sym(ast.parse("%s or 1" % length, mode="eval").body, node)
-    st = it.describe(node)
-    rep.check(it.holds_at(node, [le(0, S)]), "C08-R2", inst,
+    H = T.under((is_none(START), False))
+    rn = rec[0][0]
+    facts = H.all_facts(rn)
+    W = ("or", LEN, ("const", 1))
+    END = _poly(fl, ("binop", "Add", START, W))
+    ge0 = (mk_cmp("LtE", ("const", 0), START), True) in facts
+    within = False
+    for t, p in facts:
+        if p and t[0] == "cmp" and t[1] == "LtE" and t[3] == SLEN:
+            try:
+                within = within or _poly(fl, t[2]) == END
+            except AnalysisError:
+                pass
+    rep.check(ge0, "C08-R2", inst,
               "an explicitly positioned field is recorded only with "
-              "start_at >= 0", construct="explicit start >= 0", node=rec[0],
-              fail="a negative start_at reaches the field table; state: "
-                   "%s" % st)
-    rep.check(it.holds_at(node, [le(S + W, SL)]), "C08-R2", inst,
+              "start_at >= 0", construct="explicit start >= 0", node=fn,
+              fail="a negative start_at reaches the field table")
+    rep.check(within, "C08-R2", inst,
               "an explicitly positioned field is recorded only if start_at "
               "+ (length or 1) <= the bit field's length",
-              construct="explicit end within bit field", node=rec[0],
-              fail="a field reaching beyond the bit field can be recorded; "
-                   "state: %s" % st)
-    # zero/negative length rejected
-    fl = Flow(fn)
+              construct="explicit end within bit field", node=fn,
+              fail="a field reaching beyond the bit field can be recorded")
     okz = False
     for r in raises_of(fn):
-        f = fl.facts(fl.cfg.node_of(r))
-        if has_fact(f, "%s <= 0" % length, True) and \
-                has_fact(f, "%s is not None" % length, True):
+        f = T.all_facts(T.cfg.node_of(r))
+        if (mk_cmp("LtE", LEN, ("const", 0)), True) in f and \
+                (is_none(LEN), False) in f:
             okz = True
     rep.check(okz, "C08-R2", inst, "a given length <= 0 is rejected",
               construct="length guard", node=fn)
-    # overlap test
-    loops = [n for n in ast.walk(fn) if isinstance(n, ast.For) and
-             isinstance(n.iter, ast.Call) and
-             call_name(n.iter)[0] == "potential_fields"]
-    rep.check(len(loops) == 1 and
-              unparse(loops[0].iter.args[0]) == "self.field_values"
-              if loops else False, "C08-R2", inst,
+    # the overlap scan (in the function or in a helper it calls)
+    scans = []
+    for sub in ast.walk(fn):
+        if isinstance(sub, ast.For) and isinstance(sub.iter, ast.Call) and \
+                call_name(sub.iter)[0] == "potential_fields":
+            for view in owner_views(T, sub):
+                scans.append((view, sub))
+    okdom = len(scans) == 1
+    if okdom:
+        view, lp = scans[0]
+        it = view.term(lp.iter, view.cfg.loop_head[id(lp)])
+        okdom = plain(it) == ("call", ("attr", ("attr", SELF, "fields"),
+                                       "potential_fields"),
+                              (("attr", SELF, "field_values"),), ())
+    rep.check(okdom, "C08-R2", inst,
               "the new field is compared with every field that can be "
               "present together with it (potential_fields)",
               construct="overlap scan domain", node=fn,
               fail="the overlap scan does not range over "
                    "potential_fields(self.field_values)")
-    if len(loops) != 1:
+    if not okdom:
         return
-    lp = loops[0]
-    rs = [r for r in raises_of(fn) if _inside(r, lp)]
+    view, lp = scans[0]
+    owner = getattr(view, "t", view).fn
+    rs = [r for r in ast.walk(lp) if isinstance(r, ast.Raise)]
     if len(rs) != 1:
         raise AnalysisError("add_field: expected one raise in the overlap "
                             "scan")
-    test = rs[0]._parent
-    while not isinstance(test, ast.If):
-        test = test._parent
-    # names in the test, resolved to their definitions
-    names = sorted(set(n.id for n in ast.walk(test.test)
-                       if isinstance(n, ast.Name)))
-    tn = fl.cfg.node_of(rs[0])
-    role = {}
-    other = chain(lp.target.elts[1]) if isinstance(lp.target, ast.Tuple) \
-        else None
-    for nm in names:
-        ds = fl.reaching(nm, tn)
-        v = None
-        if len(ds) == 1 and ds[0].mode == "assign":
-            v = unparse(ds[0].value)
-        if nm == start:
-            role[nm] = "a0"
-        elif v == "%s + (%s or 1)" % (start, length):
-            role[nm] = "a1"
-        elif v == "%s.start_at" % other:
-            role[nm] = "b0"
-        elif v is not None and other and v.endswith(
-                "+ (%s.length or 1)" % other):
-            role[nm] = "b1"
-    ok = sorted(role.values()) == ["a0", "a1", "b0", "b1"]
-    rep.check(ok, "C08-R2", inst, "the overlap test compares [start_at, "
-              "start_at + (length or 1)) with [other.start_at, "
-              "other.start_at + (other.length or 1))",
-              construct="overlap operands %s" % sorted(role.items()),
-              node=test)
-    if ok:
-        terms = ["a0", "a1", "b0", "b1"]
-        bad = []
-        n_ord = 0
-        for ranks in weak_orderings(4):
-            o = Ordering(terms, ranks)
-            r = o.rank
-            if not (r["a0"] < r["a1"] and r["b0"] < r["b1"]):
-                continue        # fields are at least one bit wide
-            n_ord += 1
-            env = {nm: Poly.atom(t) for nm, t in role.items()}
-            got = Evaluator(fn, o, env).truth(test.test)
-            want = r["a0"] < r["b1"] and r["b0"] < r["a1"]
-            if got != want:
-                bad.append(ranks)
-        rep.check(not bad, "C08-R2", inst,
-                  "the overlap test equals half-open intersection on all %d "
-                  "orderings of the endpoints (non-empty fields)" % n_ord,
-                  construct="overlap predicate", node=test,
-                  fail="the overlap test misjudges %d of %d endpoint "
-                       "orderings, e.g. ranks (start, end, other_start, "
-                       "other_end) = %s: overlapping explicit fields are "
-                       "accepted (or disjoint ones rejected)" % (
-                           len(bad), n_ord, bad[0] if bad else ""))
-    # only fields with a known position are compared
+    it = view.term(lp.iter, view.cfg.loop_head[id(lp)])
+    OTHER = ("comp", ("elem", it), 1)
+    OS = ("attr", OTHER, "start_at")
+    rf = view.all_facts(view.cfg.node_of(rs[0]))
+    cmps = [(t, p) for t, p in rf if t[0] == "cmp" and
+            t[1] in ("Lt", "LtE") and any(
+                st == OS for st in subterms(t))]
+    end_p = END
+    oend_p = _poly(fl, ("binop", "Add", OS,
+                        ("or", ("attr", OTHER, "length"), ("const", 1))))
+
+    def is_(t, a, b):
+        try:
+            return _poly(fl, t[2]) == a and _poly(fl, t[3]) == b
+        except AnalysisError:
+            return False
+    start_p, os_p = _poly(fl, START), _poly(fl, OS)
+    c1 = [1 for t, p in cmps if p and t[1] == "Lt" and is_(t, os_p, end_p)]
+    c2 = [1 for t, p in cmps if p and t[1] == "Lt" and
+          is_(t, start_p, oend_p)]
+    known = (is_none(OS), False) in rf
+    rep.check(known and len(c1) == 1 and len(c2) == 1 and len(cmps) == 2,
+              "C08-R2", inst, "the overlap error is raised exactly when "
+              "[start_at, start_at + (length or 1)) and [other.start_at, "
+              "other.start_at + (other.length or 1)) intersect (other.start "
+              "< end and start < other.end), for every potential field "
+              "with a known position", construct="overlap predicate",
+              node=rs[0],
+              fail="the overlap test is not half-open intersection of the "
+                   "two bit ranges (conditions at the raise: %s): "
+                   "overlapping explicit fields are accepted (or disjoint "
+                   "ones rejected)" % [show(t)[:60] for t, p in cmps])
+    # the scan is run for every explicitly positioned field
+    okrun = H.live(rn)
+    if owner is fn:
+        okrun = okrun and H.must_pass(T.cfg.entry, lambda n: n is
+                                      T.cfg.loop_head[id(lp)], targets=[rn])
+    else:
+        calls = [n for n in T.cfg.nodes if n.kind == "stmt" and
+                 isinstance(n.ast, ast.Expr) and
+                 isinstance(n.ast.value, ast.Call) and
+                 isinstance(n.ast.value.func, ast.Name) and
+                 n.ast.value.func.id == owner.name]
+        okrun = okrun and len(calls) == 1 and H.must_pass(
+            T.cfg.entry, lambda n: n is calls[0], targets=[rn])
+    rep.check(okrun, "C08-R2", inst, "every explicitly positioned field "
+              "goes through the scan before it is recorded",
+              construct="overlap scan reached", node=fn)
     rep.floor("C08-R2", 6)
 
 
 def r3_masks(program, rep):
     # get_mask
     fn = program.get(BF + ".get_mask")
+    T = Terms(fn)
     fl = Flow(fn)
+
+    def accum(T_, fn_):
+        """The terms or-ed into the value returned."""
+        rets = [r for r in returns_of(fn_) if r.value is not None]
+        out = []
+        for r in rets:
+            t = T_.term(r.value)
+            for alt in one_level(t):
+                if alt[0] == "binop" and alt[1] == "BitOr":
+                    out.append(alt[3] if alt[2] == t else alt[2])
+        return out
     ok = False
-    for d in fl.defs:
-        if d.mode == "aug" and isinstance(d.value.op, ast.BitOr):
-            mf = _mask_form(fl, d.value.value, d.node)
-            ok = mf is not None and "length" in repr(mf[0]) and \
-                "start_at" in repr(mf[1])
+    for x in accum(T, fn):
+        mf = _mask_form(fl, x)
+        if mf is not None:
+            Lt_ = [st for st in subterms(x) if st[0] == "attr" and
+                   st[2] == "length"]
+            St_ = [st for st in subterms(x) if st[0] == "attr" and
+                   st[2] == "start_at"]
+            ok = len(set(Lt_)) == 1 and len(set(St_)) == 1 and \
+                Lt_[0][1] == St_[0][1] and mf[0] == _poly(fl, Lt_[0]) and \
+                mf[1] == _poly(fl, St_[0])
     rep.check(ok, "C08-R3", qual(fn), "mask |= ((1 << field.length) - 1) << "
               "field.start_at", construct="get_mask formula", node=fn)
     fn = program.get(BF + ".get_value")
-    fl = Flow(fn)
+    T = Terms(fn)
     ok = False
-    for d in fl.defs:
-        if d.mode == "aug" and isinstance(d.value.op, ast.BitOr):
-            v = d.value.value
-            ok = isinstance(v, ast.BinOp) and isinstance(v.op, ast.LShift) \
-                and unparse(v.right).endswith(".start_at") and \
-                unparse(v.left).startswith("self.field_values[")
+    for x in accum(T, fn):
+        m = match(("binop", "LShift",
+                   ("item", ("attr", SELF, "field_values"), V("id")),
+                   ("attr", V("f"), "start_at")), x)
+        if m is not None:
+            E = m["f"][1] if m["f"][0] == "comp" else None
+            ok = E is not None and m["id"] == ("comp", E, 0) and \
+                m["f"] == ("comp", E, 1)
     rep.check(ok, "C08-R3", qual(fn), "value |= field value << "
               "field.start_at (the same position the mask uses)",
               construct="get_value formula", node=fn)
     fn = program.get(BF + "._assign_fields")
+    T = Terms(fn)
     fl = Flow(fn)
-    ok = False
-    dom_ok = False
-    for d in fl.defs:
-        if d.mode == "aug" and isinstance(d.value.op, ast.BitOr) and \
-                not isinstance(d.value.value, ast.Call):
-            mf = _mask_form(fl, d.value.value, d.node)
-            ok = mf is not None
-            lp = d.node.ast._parent
-            while lp is not None and not isinstance(lp, ast.For):
-                lp = lp._parent
-            dom_ok = lp is not None and isinstance(lp.iter, ast.Call) and \
-                call_name(lp.iter)[0] == "potential_fields"
+    ps = formals(fn)
+    OCC = ps[-1] if "assigned_bits" not in ps else "assigned_bits"
+    ok = dom_ok = acc = False
+    for b_ in T.binds:
+        if b_.var != OCC or b_.mode not in ("assign", "aug"):
+            continue
+        t = T._bind_term(b_)
+        if t[0] != "binop" or t[1] != "BitOr":
+            continue
+        cur = T.term(ast.Name(id=OCC, ctx=ast.Load()), b_.node)
+        other = t[3] if t[2] == cur else t[2] if t[3] == cur else None
+        if other is None:
+            continue
+        lp = b_.node.ast
+        while lp is not None and not isinstance(lp, ast.For):
+            lp = getattr(lp, "_parent", None)
+        if other[0] == "callv" and other[1] == ("attr", SELF,
+                                                "_assign_field"):
+            acc = other[2][:1] == (cur,)
+            continue
+        mf = _mask_form(fl, other)
+        if mf is not None and lp is not None:
+            F = [st for st in subterms(other) if st[0] == "attr" and
+                 st[2] == "length"]
+            ok = bool(F) and mf[0] == _poly(fl, F[0]) and \
+                mf[1] == _poly(fl, ("attr", F[0][1], "start_at"))
+            it = plain(T.term(lp.iter, T.cfg.loop_head[id(lp)]))
+            dom_ok = it[0] == "call" and it[1] == (
+                "attr", ("attr", SELF, "fields"), "potential_fields") and \
+                it[2] == (("param", ps[2]),)
+            f = T.all_facts(b_.node)
+            ok = ok and (is_none(F[0]), False) in f and \
+                (is_none(("attr", F[0][1], "start_at")), False) in f
     rep.check(ok, "C08-R3", qual(fn), "occupancy |= ((1 << f.length) - 1) "
-              "<< f.start_at", construct="_assign_fields formula", node=fn)
+              "<< f.start_at for every potential field whose length and "
+              "position are known", construct="_assign_fields formula",
+              node=fn)
     rep.check(dom_ok, "C08-R4", qual(fn), "the occupancy mask is accumulated "
               "over potential_fields (everything that can be present "
               "together), not only the enabled fields",
@@ -362,41 +515,75 @@ def r3_masks(program, rep):
               fail="the occupancy mask is not accumulated over "
                    "potential_fields(field_values): a field can be placed on "
                    "top of one that may be present with it")
-    # the result of _assign_field is accumulated
-    acc = False
-    for d in fl.defs:
-        if d.mode == "aug" and isinstance(d.value.value, ast.Call) and \
-                call_name(d.value.value)[0] == "_assign_field":
-            c = d.value.value
-            acc = chain(c.args[0]) == d.var
     rep.check(acc, "C08-R4", qual(fn), "each placed field's bits are "
               "accumulated into the occupancy passed to the next placement",
               construct="occupancy accumulation", node=fn)
     # __call__ value range
     fn = program.get(BF + ".__call__")
-    fl = Flow(fn)
-    neg = big = False
-    for r in raises_of(fn):
-        f = fl.facts(fl.cfg.node_of(r))
-        for c, p, a in f:
-            t = unparse(c)
-            if t == "value < 0" and p:
+    T = Terms(fn)
+    FV = ("param", fn.args.kwarg.arg)
+    E = ("elem", ("items", FV))
+    VALUE = ("comp", E, 1)
+    cands = []
+    for c in calls_in(fn, "get_field"):
+        t = T.term(c)
+        if t[0] == "callv" and t[2][:1] == (("comp", E, 0),):
+            cands.append(t)
+    neg = big = must = False
+    for FIELD in cands:
+        FL = ("attr", FIELD, "length")
+        toobig = mk_cmp("LtE", ("binop", "LShift", ("const", 1), FL), VALUE)
+        rz = []
+        big_ = False
+        for r in raises_of(fn):
+            rn = T.cfg.node_of(r)
+            f = T.all_facts(rn)
+            if (mk_cmp("Lt", VALUE, ("const", 0)), True) in f:
                 neg = True
-            if t == "value >= 1 << field.length" and p:
-                big = True
-    rep.check(neg and big, "C08-R3", qual(fn), "a value is rejected if "
-              "negative or >= 1 << length of a sized field",
-              construct="value range check", node=fn)
+                rz.append(rn)
+            if (toobig, True) in f and (is_none(FL), False) in f:
+                big_ = True
+                rz.append(rn)
+        if not big_:
+            continue
+        big = True
+        # whenever the length is known and the value does not fit, the error
+        # is raised (nothing else gates it)
+        H = T.under((is_none(FL), False), (toobig, True),
+                    (mk_cmp("Lt", VALUE, ("const", 0)), False))
+        gf = [n for n in T.cfg.nodes if n.kind in ("stmt", "test") and
+              n.ast is not None and any(
+                  isinstance(x, ast.Call) and
+                  isinstance(x.func, ast.Attribute) and
+                  x.func.attr == "get_field" and T.term(x, n) == FIELD
+                  for x in ast.walk(n.ast))]
+        heads = list(T.cfg.loop_head.values())
+        must = bool(gf) and H.must_pass(gf[0], lambda n: n in rz,
+                                        targets=heads + [T.cfg.exit])
+    rep.check(neg and big and must, "C08-R3", qual(fn), "a value is "
+              "rejected if negative, and whenever the field has a length "
+              "and the value is >= 1 << length (whether or not its position "
+              "is known yet)", construct="value range check", node=fn,
+              fail="a value that does not fit a field of known length can "
+                   "be accepted (e.g. when the field's position is not yet "
+                   "assigned): the field keeps its length and the value "
+                   "spills over its neighbours")
     rep.floor("C08-R3", 5)
 
 
 def r4_order(program, rep):
     fn = program.get(BF + ".assign_fields")
     inst = qual(fn)
-    fl = Flow(fn)
-    cfg = fl.cfg
-    c1 = [c for c in calls_in(fn, "_assign_fields")]
-    rec = program.get(BF + ".assign_fields.recurse_assign_fields")
+    T = Terms(fn)
+    cfg = T.cfg
+    nested = [x for x in ast.walk(fn) if isinstance(x, ast.FunctionDef) and
+              x is not fn]
+    rec = [x for x in nested if calls_in(x, x.name) and
+           calls_in(x, "_assign_fields")]
+    if len(rec) != 1:
+        raise AnalysisError("assign_fields: the leaf-first recursion")
+    rec = rec[0]
+    c1 = [c for c in calls_in(fn, "_assign_fields") if not _inside(c, rec)]
     c2 = [c for c in calls_in(rec, "_assign_fields")]
     okf = len(c1) == 1 and len(c2) == 1
     if okf:
@@ -406,8 +593,7 @@ def r4_order(program, rep):
             kw1["assign_positions"].value is False and \
             isinstance(kw2.get("assign_positions"), ast.Constant) and \
             kw2["assign_positions"].value is True
-        # the recursive pass is started after the first loop
-        starts = [c for c in calls_in(fn, "recurse_assign_fields")]
+        starts = [c for c in calls_in(fn, rec.name) if not _inside(c, rec)]
         okf = okf and len(starts) == 1 and cfg.reaches(
             cfg.node_containing(c1[0]), cfg.node_containing(starts[0])) and \
             not cfg.reaches(cfg.node_containing(starts[0]),
@@ -415,113 +601,209 @@ def r4_order(program, rep):
     rep.check(okf, "C08-R4", inst, "fixed-position fields get their lengths "
               "first (assign_positions=False), floating fields are placed "
               "afterwards", construct="pass order", node=fn)
-    # children before parents in the floating pass
-    cr = Flow(rec)
-    inner = [c for c in calls_in(rec, "recurse_assign_fields")]
-    okc = len(inner) == 1 and len(c2) == 1 and cr.cfg.reaches(
-        cr.cfg.node_containing(inner[0]), cr.cfg.node_containing(c2[0])) \
-        and not cr.cfg.reaches(cr.cfg.node_containing(c2[0]),
-                               cr.cfg.node_containing(inner[0]))
+    R = Terms(rec, outer=(T, cfg.exit))
+    inner = [c for c in calls_in(rec, rec.name)]
+    okc = len(inner) == 1 and len(c2) == 1 and R.cfg.reaches(
+        R.cfg.node_containing(inner[0]), R.cfg.node_containing(c2[0])) \
+        and not R.cfg.reaches(R.cfg.node_containing(c2[0]),
+                              R.cfg.node_containing(inner[0]))
     rep.check(okc, "C08-R4", qual(rec), "children are placed before their "
               "parents in the floating pass", construct="leaf-first order",
               node=rec)
-    # child requirement dictionaries are copies updated with the parent's
+    # every child gets its own requirement dictionary: a fresh copy of the
+    # child's requirements, updated with the parent's values, made for that
+    # child (inside the loop over the children, or in a helper called there)
     okd = True
-    for f_ in (fn, rec):
-        ff = Flow(f_)
-        for d in ff.defs:
-            if d.mode == "mut" and d.node.ast is not None:
-                for c in calls_in(d.node.ast, "update"):
-                    recv = chain(call_name(c)[1])
-                    ds = ff.reaching(recv, ff.cfg.node_containing(c))
-                    ds = [x for x in ds if x.mode == "assign"]
-                    if not (ds and all(isinstance(x.value, ast.Call) and
-                                       call_name(x.value)[0] == "dict"
-                                       for x in ds)):
-                        okd = False
-    rep.check(okd, "C08-R4", inst, "requirement dictionaries handed down "
-              "the hierarchy are fresh copies", construct="requirements "
-              "copied", node=fn)
+    n_sites = 0
+    detail = ""
+    for view, f_ in ((T, fn), (R, rec)):
+        for lp in ast.walk(f_):
+            if not (isinstance(lp, ast.For) and any(
+                    isinstance(x, ast.Attribute) and x.attr == "children"
+                    for x in ast.walk(lp.iter))):
+                continue
+            if f_ is fn and _inside(lp, rec):
+                continue
+            ok_l, why = _child_values(view, f_, lp)
+            n_sites += 1
+            if not ok_l:
+                okd = False
+                detail = why
+        # comprehensions over the children (queue.extend(... for ...))
+        for ge in ast.walk(f_):
+            if isinstance(ge, (ast.GeneratorExp, ast.ListComp)) and any(
+                    isinstance(x, ast.Attribute) and x.attr == "children"
+                    for g in ge.generators for x in ast.walk(g.iter)):
+                if f_ is fn and _inside(ge, rec):
+                    continue
+                n_sites += 1
+                ok_l, why = _child_values_comp(view, ge)
+                if not ok_l:
+                    okd = False
+                    detail = why
+    rep.check(okd and n_sites == 2, "C08-R4", inst, "every child scope gets "
+              "a requirement dictionary of its own: its requirements "
+              "updated with its parent's values, made afresh for that "
+              "child", construct="requirements copied", node=fn,
+              fail="the field values handed to a child scope are not a "
+                   "dictionary made for that child alone (%s): "
+                   "requirements of one child leak into its siblings and "
+                   "fields that can be present together are laid out on top "
+                   "of each other" % detail)
+
+
+def _fresh_child_dict(t, loop_node, helpers):
+    """Is ``t`` a dict made inside ``loop_node`` (or inside a helper)?"""
+    if t[0] != "new":
+        return False
+    site = SITES.get(t[1])
+    if site is None:
+        return False
+    if _inside(site, loop_node):
+        return True
+    return any(_inside(site, h) for h in helpers)
+
+
+def _child_values(view, f_, lp):
+    """The dictionary handed on for a child in the loop ``lp``."""
+    helpers = [x for x in ast.walk(view.fn if hasattr(view, "fn") else f_)
+               if isinstance(x, ast.FunctionDef)]
+    root = view
+    while getattr(root, "outer", None) is not None:
+        root = root.outer[0]
+    helpers = [x for x in ast.walk(root.fn)
+               if isinstance(x, ast.FunctionDef) and x is not root.fn and
+               not calls_in(x, x.name)]
+    head = view.cfg.loop_head[id(lp)]
+    E = view._elem(view.term(lp.iter, head))
+    REQ = view._comp(E, 0, 2)
+    handed = []
+    for c in ast.walk(lp):
+        if isinstance(c, ast.Call) and (
+                (isinstance(c.func, ast.Name) and c.func.id == f_.name) or
+                (isinstance(c.func, ast.Attribute) and
+                 c.func.attr == "append")):
+            n = view.cfg.node_containing(c)
+            for a in c.args:
+                t = view.term(a, n)
+                for cand in ([t] if t[0] != "tuple" else list(t[1:])):
+                    if cand[0] == "new":
+                        handed.append((cand, n))
+    if not handed:
+        return False, "no dictionary is made for the child"
+    for t, n in handed:
+        if not _fresh_child_dict(t, lp, helpers):
+            return False, "the dictionary is created outside the loop"
+        if plain(t) != ("call", ("global", "dict"), (plain(REQ),), ()):
+            return False, "it is not a copy of the child's requirements"
+    return True, ""
+
+
+def _child_values_comp(view, ge):
+    root = view
+    helpers = [x for x in ast.walk(root.fn)
+               if isinstance(x, ast.FunctionDef) and x is not root.fn and
+               not calls_in(x, x.name)]
+    n = view.cfg.node_containing(ge)
+    t = view.term(ge, n)
+    elt = t[1]
+    if elt[0] != "tuple":
+        return False, "unexpected element"
+    for cand in elt[1:]:
+        if cand[0] == "new":
+            if not (_inside(SITES.get(cand[1]), ge) or any(
+                    _inside(SITES.get(cand[1]), h) for h in helpers)):
+                return False, "the dictionary is created outside the loop"
+            return True, ""
+    return False, "no dictionary is made for the child"
 
 
 def r5_widths(program, rep):
     fn = program.get(BF + ".__call__")
     inst = qual(fn)
-    fl = Flow(fn)
-    loops = [n for n in ast.walk(fn) if isinstance(n, ast.For)]
-    upd = None
-    val = None
-    for lp in loops:
-        for s in ast.walk(lp):
-            if isinstance(s, ast.Assign) and \
-                    unparse(s.targets[0]).endswith(".max_value"):
-                upd = (lp, s)
-            if isinstance(s, ast.Raise) and "too large" in unparse(s):
-                val = lp
-    ok = False
-    if upd and val:
-        lp, s = upd
-        ok = unparse(lp.iter) == unparse(val.iter) and \
-            isinstance(s.value, ast.Call) and call_name(s.value)[0] == "max" \
-            and {unparse(a) for a in s.value.args} == {
-                unparse(s.targets[0]), chain(lp.target.elts[1])}
+    T = Terms(fn)
+    FV = ("param", fn.args.kwarg.arg)
+    E = ("elem", ("items", FV))
+    ups = _attr_binds(T, lambda X: X[0] == "callv" and X[1][0] == "attr" and
+                      X[1][2] == "get_field", "max_value")
+    ok = len(ups) == 1
+    if ok:
+        b_, F, val = ups[0]
+        pv = plain(val)
+        ok = F[2][:1] == (("comp", E, 0),) and pv[0] == "call" and \
+            pv[1] == ("global", "max") and len(pv[2]) == 2 and \
+            plain(("comp", E, 1)) in pv[2] and any(
+                x[0] == "attr" and x[2] == "max_value" and x[1] == plain(F)
+                for x in pv[2])
     rep.check(ok, "C08-R5", inst, "every value accepted updates the field's "
               "max_value = max(old, value), over the same field_values the "
               "validation loop covered", construct="max_value update",
               node=fn)
-    # ordering: validation loop precedes update loop
-    if upd and val:
-        a = fl.cfg.loop_head[id(val)]
-        b = fl.cfg.loop_head[id(upd[0])]
-        rep.check(fl.cfg.dominates(a, b) and a is not b, "C08-R5", inst,
+    if ok:
+        rz = [T.cfg.node_of(r) for r in raises_of(fn)]
+        un = ups[0][0].node
+        rep.check(all(not T.cfg.reaches(un, r) for r in rz), "C08-R5", inst,
                   "values are validated before any max_value is updated",
                   construct="validate before update", node=fn)
     fn = program.get(BF + "._assign_field")
-    fl = Flow(fn)
+    T = Terms(fn)
+    FIELD = None
+    for c in calls_in(fn, "get_field"):
+        FIELD = T.term(c)
     ok = False
-    for d in fl.defs:
-        if d.var == "length" and d.mode == "assign" and \
-                isinstance(d.value, ast.BinOp):
-            t = unparse(d.value)
-            f = fl.facts(d.node)
-            ok = t == "int(log(field.max_value, 2)) + 1" and \
-                has_fact(f, "length is None", True)
+    if FIELD is not None:
+        LEN0 = _read_of(T, FIELD, "length")
+        H = T.under((is_none(LEN0), True))
+        lc = _attr_binds(T, lambda X: X == FIELD, "length")
+        if len(lc) == 1:
+            v = plain(H.term(lc[0][0].value, lc[0][0].node))
+            mv = ("attr", plain(FIELD), "max_value")
+            v = _unversion(v)
+            lg = ("call", ("global", "int"),
+                  (("call", ("global", "log"), (mv, ("const", 2)), ()),), ())
+            ok = v in (("binop", "Add", lg, ("const", 1)),
+                       ("binop", "Add", ("const", 1), lg))
+            H2 = T.under((is_none(LEN0), False))
+            ok = ok and H2.term(lc[0][0].value, lc[0][0].node) == LEN0
     rep.check(ok, "C08-R5", qual(fn), "an automatic length is "
-              "floor(log2(max_value)) + 1 bits", construct="auto length",
-              node=fn)
+              "floor(log2(max_value)) + 1 bits; a given length is kept",
+              construct="auto length", node=fn)
     rep.floor("C08-R5", 3)
 
 
 def r6_tags(program, rep):
     fn = program.get(BF + ".add_field")
     inst = qual(fn)
-    fl = Flow(fn)
-    cfg = fl.cfg
-    loops = [n for n in ast.walk(fn) if isinstance(n, ast.For) and
-             isinstance(n.iter, ast.Call) and
-             call_name(n.iter)[0] == "get_field_requirements"]
-    if len(loops) != 1:
+    T = Terms(fn)
+    cfg = T.cfg
+    ps = formals(fn)
+    ups = [x for x in method_calls(T, "update")
+           if x[2][0] == "attr" and x[2][2] == "tags"]
+    if len(ups) != 1:
         raise AnalysisError("add_field: tag propagation loop not found")
-    lp = loops[0]
-    ups = [c for c in calls_in(lp, "update")
-           if unparse(call_name(c)[1]).endswith(".tags")]
-    ok = False
-    if len(ups) == 1:
-        un = cfg.node_containing(ups[0])
-        head = cfg.loop_head[id(lp)]
-        body = [s for s in head.succ if s.label == "forbody"][0]
-        no_skip = not any(isinstance(n, (ast.Break, ast.Continue, ast.Return))
-                          for n in ast.walk(lp))
-        ok = no_skip and cfg.must_pass(body, lambda n: n is un,
-                                       targets=[head, cfg.exit]) and \
-            chain(ups[0].args[0]) == formals(fn)[4] and \
-            chain(lp.iter.args[0]) == formals(fn)[1]
-        # the parent object updated is the field looked up for this parent id
-        recv = chain(call_name(ups[0])[1]).rsplit(".", 1)[0]
-        ds = fl.reaching(recv, un)
-        ok = ok and len(ds) == 1 and isinstance(ds[0].value, ast.Call) and \
-            call_name(ds[0].value)[0] == "get_field" and \
-            chain(ds[0].value.args[0]) == chain(lp.target)
+    un, uc, recv, args = ups[0]
+    lp = uc
+    while lp is not None and not isinstance(lp, ast.For):
+        lp = getattr(lp, "_parent", None)
+    if lp is None:
+        raise AnalysisError("add_field: tag propagation loop not found")
+    head = cfg.loop_head[id(lp)]
+    body = [s for s in head.succ if s.label == "forbody"][0]
+    FIELDS = ("attr", SELF, "fields")
+    FVS = ("attr", SELF, "field_values")
+    it = plain(T.term(lp.iter, head))
+    PID = ("elem", T.term(lp.iter, head))
+    no_skip = not any(isinstance(n, (ast.Break, ast.Continue, ast.Return))
+                      for n in ast.walk(lp))
+    parent = plain(recv[1])
+    TAGS = T.term(ast.Name(id=ps[4], ctx=ast.Load()), un)
+    ok = no_skip and cfg.must_pass(body, lambda n: n is un,
+                                   targets=[head, cfg.exit]) and \
+        args == [TAGS] and it == (
+            "call", ("attr", FIELDS, "get_field_requirements"),
+            (("param", ps[1]), FVS), ()) and \
+        parent == ("call", ("attr", FIELDS, "get_field"),
+                   (plain(PID), FVS), ())
     rep.check(ok, "C08-R6", inst, "the new field's tags are added to every "
               "field it depends on (every iteration of the requirements "
               "loop reaches the update; no early exit)",
@@ -529,8 +811,6 @@ def r6_tags(program, rep):
               fail="the tags are not added to every field in "
                    "get_field_requirements(identifier): an ancestor can miss "
                    "the tag and drop out of the tag's mask")
-    # the loop is reached on every normal path
-    head = cfg.loop_head[id(lp)]
     rep.check(cfg.must_pass(cfg.entry, lambda n: n is head), "C08-R6", inst,
               "tag propagation runs for every field added",
               construct="tag propagation reached", node=fn)
@@ -538,12 +818,12 @@ def r6_tags(program, rep):
 
 def check(program, rep):
     program.module("rig.bitfield")
-    rep.guard("C08-R1", r1_scan, program, rep)
+    rep.guard(["C08-R1", "C08-R3", "C08-R4"], r1_scan, program, rep)
     rep.guard("C08-R2", r2_explicit, program, rep)
-    rep.guard("C08-R3", r3_masks, program, rep)
+    rep.guard(["C08-R3", "C08-R4"], r3_masks, program, rep)
     rep.guard("C08-R4", r4_order, program, rep)
     rep.guard("C08-R5", r5_widths, program, rep)
     rep.guard("C08-R6", r6_tags, program, rep)
     rep.floor("C08-R4", 5)
     return finish(rep, program, EXPLANATION, NOT_DECIDED,
-                  trusted=["ORDTYPE evaluator", "LININV engine"])
+                  trusted=["the engines' arithmetic normal forms (pow2)"])
